@@ -37,20 +37,28 @@ def hexDigits : Nat → Nat → List Char
   | 0, _ => []
   | fuel + 1, v => if v < 16 then [digit v] else hexDigits fuel (v / 16) ++ [digit (v % 16)]
 
-/-- `format!("{:0width$x}", v)`: at least `width` characters, zero padded on the left -/
+/-- exactly `w` hex digits of `v`, most significant first (the low `4w` bits) -/
+def hexN : Nat → Nat → List Char
+  | 0, _ => []
+  | w + 1, v => hexN w (v / 16) ++ [digit (v % 16)]
+
+/-- `format!("{:0width$x}", v)`: the digits of `v`, zero padded on the left to at least `width` characters —
+exactly `width` digits when `v < 16^width`, all of `v`'s digits otherwise -/
 def fmtHex (width v : Nat) : List Char :=
-  let ds := hexDigits (v + 1) v
-  List.replicate (width - ds.length) '0' ++ ds
+  if v < 16 ^ width then hexN width v else hexDigits (v + 1) v
 
 /-- `Display` of a `wire_value_newtype` with `N = wire.length` -/
 def newtypeToString (wire : Bytes) : List Char := fmtHex (2 * wire.length) (leValue wire)
 
 /-- `<uN>::from_str_radix(s, 16)` for an unsigned type of `bits` bits: optional leading `+`, at least one
 digit, every character a hex digit, no overflow -/
+def stripPlus (s : List Char) : List Char :=
+  match s with
+  | '+' :: rest => rest
+  | _ => s
+
 def fromStrRadix16 (bits : Nat) (s : List Char) : Option Nat :=
-  let ds := match s with
-    | '+' :: rest => rest
-    | _ => s
+  let ds := stripPlus s
   if ds.isEmpty then none
   else
     ds.foldl (fun acc c =>
